@@ -6,7 +6,7 @@ tier rebuilt from the canonical state; a list model is advanced in lock step and
 from fractions import Fraction as F
 
 from mc import domains as D
-from mc.engine import BfsPart, Viol
+from mc.engine import BfsPart, InputPart, Viol
 from mc.models import ival
 from mc.props.common import IT, PT, errors, PE, call, ents, wellformed, canon, mk, constants
 
@@ -32,9 +32,10 @@ def _ops_iv(vals):
     return ops
 
 
-def _step_iv(state, op):
+def _step_iv(state, op, t=None):
     kind, name, lo, hi, entries = state
-    t = mk(state)
+    if t is None:
+        t = mk(state)
     E = ival.fentries(entries)
     viols = []
     if op[0] == "ins":
@@ -122,9 +123,10 @@ def _ops_pt(vals):
     return ops
 
 
-def _step_pt(state, op):
+def _step_pt(state, op, t=None):
     kind, name, lo, hi, entries = state
-    t = mk(state)
+    if t is None:
+        t = mk(state)
     P = ival.fentries(entries)
     viols = []
     if op[0] == "ins":
@@ -188,6 +190,27 @@ def _step_pt(state, op):
     return None, 1, "absent", None, viols
 
 
+def _check_live(case, ops_fn, step_fn):
+    """op1, op2 (, op3) applied to ONE live tier; the list model (through the canonical state) in lock step"""
+    state0, op1 = case
+    viols = []
+    n = 0
+    t0 = mk(state0)
+    s1, k, o, nt, v = step_fn(state0, op1, t=t0)
+    state1 = canon(t0)
+    for op2 in ops_fn(state1):
+        t = mk(state0)
+        step_fn(state0, op1, t=t)
+        s2, k, o, nt, v = step_fn(state1, op2, t=t)
+        n += 1 + k
+        if v:
+            for x in v:
+                x["msg"] = f"after {op1} on a live tier built from {state0}: " + x["msg"]
+            viols.extend(v)
+            break
+    return n, "ok", (op1[0], len(state0[4])), viols
+
+
 def _prune(state):
     return any(len(e[-1]) > LABCAP for e in state[4])
 
@@ -212,4 +235,14 @@ def parts(tier):
                      "x 2 reporting modes, deleteEntry present/absent; list model after every transition",
                 bounds={"depth": depth + 1, "label_length_cap": LABCAP}, max_depth=depth + 1, prune=_prune),
     ]
+    live_iv = [("I", "t", 0.0, 4.0, ()), ("I", "t", 0.0, 4.0, ((1.0, 2.0, "a"),)), ("I", "t", 0.0, 4.0, ((0.0, 1.0, "a"), (1.0, 3.0, "b")))]
+    live_vals = (-1.0, 0.0, 0.5, 1.0, 2.0, 3.0, 5.0)
+    ps.append(InputPart("live-sequences-intervals", lambda: ((s0, op1) for s0 in live_iv for op1 in _ops_iv(live_vals)(s0)),
+                        lambda c: _check_live(c, _ops_iv(live_vals), _step_iv),
+                        rule="every pair (op1, op2) of insertEntry / deleteEntry calls on ONE live interval tier from 3 seed tiers, list model in "
+                             "lock step (hidden state in the tier object would make the second step disagree)", bounds={"sequence_length": 2}, chunk=2))
+    live_pt = [("P", "t", 0.0, 4.0, ()), ("P", "t", 0.0, 4.0, ((1.0, "a"), (3.0, "b")))]
+    ps.append(InputPart("live-sequences-points", lambda: ((s0, op1) for s0 in live_pt for op1 in _ops_pt(pvals)(s0)),
+                        lambda c: _check_live(c, _ops_pt(pvals), _step_pt),
+                        rule="the same for point tiers", bounds={"sequence_length": 2}, chunk=2))
     return ps
